@@ -93,6 +93,16 @@ def build(cfg, values=None):
             c = sym_state(ctx, size0, zero=cfg.get('zero', ()))
             c_before = c.copy()
             F = p._verif_lam.ABD
+            if cfg.get('laminate_offset'):
+                # a laminate whose reference surface is offset: the resultants of the state use A, B + d A, D + 2 d B + d^2 A
+                d_ = ctx.V('d')
+                p.offset = d_
+                F = F.copy()
+                base = p._verif_lam.ABD
+                for i in range(3):
+                    for j in range(3):
+                        F[i, 3 + j] = F[3 + j, i] = base[i, 3 + j] + d_ * base[i, j]
+                        F[3 + i, 3 + j] = base[3 + i, 3 + j] + 2 * d_ * base[i, 3 + j] + d_ * d_ * base[i, j]
             if variant == 'num_table':
                 # per-point (nx,ny,6,6) table filled with the SAME symbols must change nothing
                 Fn = np.zeros((nx, ny, 6, 6), dtype=object)
@@ -173,6 +183,7 @@ def configs(tier, seed):
             out.append({'model': model, 'm': 2, 'n': 1, 'variant': 'num', 'nx': 2, 'ny': 2, 'NL': NL, 'group': 'kG_num-2x2:%s' % model})
             out.append({'model': model, 'm': 1, 'n': 2, 'variant': 'num_table', 'nx': 2, 'ny': 1, 'NL': NL, 'group': 'kG_num-table:%s' % model})
         out.append({'model': model, 'm': 2, 'n': 2, 'variant': 'num', 'nx': 1, 'ny': 1, 'NL': 1, 'zero': (2,), 'group': 'kG_num-membrane-state:%s' % model})
+        out.append({'model': model, 'm': 2, 'n': 1, 'variant': 'num', 'nx': 1, 'ny': 1, 'NL': 1, 'laminate_offset': True, 'group': 'kG_num-offset-laminate:%s' % model})
         if not quick:
             out.append({'model': model, 'm': 3, 'n': 3, 'variant': 'num', 'nx': 1, 'ny': 1, 'NL': 1, 'group': 'kG_num-integrand:%s' % model, 'timeout_ms': 180000})
             out.append({'model': model, 'm': 2, 'n': 2, 'variant': 'num', 'nx': 3, 'ny': 3, 'NL': 1, 'group': 'kG_num-3x3:%s' % model, 'timeout_ms': 180000})
